@@ -405,19 +405,64 @@ func solveBatch(c *Ctx, obls []*Obligation, budget int) {
 	}
 }
 
+// solveFast: a first pass over the plain obligations of one function in a single incremental
+// z3 run (one process, the definitions parsed once, a short per-query timeout). Only "unsat"
+// answers are accepted; everything else goes through the ordinary per-obligation path, which
+// produces models, races the solvers and splits goals.
+func solveFast(c *Ctx, obls []*Obligation, budget int) {
+	c.computeDeps()
+	var b strings.Builder
+	b.WriteString(c.header())
+	b.WriteString("(set-option :timeout 1500)\n")
+	for _, d := range c.decls {
+		b.WriteString(d.text + "\n")
+	}
+	for _, o := range obls {
+		fmt.Fprintf(&b, "(push 1)\n(assert %s)\n(assert (not %s))\n(check-sat)\n(pop 1)\n", o.Guard, o.Goal)
+	}
+	file := oblFile(obls[0].Func + "#fast")
+	os.MkdirAll(filepath.Dir(file), 0o755)
+	os.WriteFile(file, []byte(b.String()), 0o644)
+	t0 := time.Now()
+	ctx, cancel := context.WithTimeout(context.Background(), time.Duration(2*len(obls)+20)*time.Second)
+	defer cancel()
+	cmd := exec.CommandContext(ctx, "z3-new", file)
+	var buf bytes.Buffer
+	cmd.Stdout, cmd.Stderr = &buf, &buf
+	cmd.Run()
+	var answers []string
+	for _, ln := range strings.Split(buf.String(), "\n") {
+		switch strings.TrimSpace(ln) {
+		case "sat", "unsat", "unknown", "timeout":
+			answers = append(answers, strings.TrimSpace(ln))
+		}
+	}
+	per := time.Since(t0).Seconds() / float64(len(obls))
+	for i, o := range obls {
+		if len(answers) == len(obls) && answers[i] == "unsat" {
+			o.File, o.Solver, o.TimeS, o.Result = file, "z3-new+batch", per, "proved"
+			continue
+		}
+		solveObligation(c, o, budget)
+	}
+}
+
 func solveAll(results []*FuncResult, budget int, workers int, filter func(o *Obligation) bool) {
 	type job struct {
 		c     *Ctx
 		o     *Obligation
 		batch []*Obligation
+		fast  []*Obligation
 	}
 	var jobs []job
 	for _, r := range results {
-		var batch []*Obligation
+		var batch, fast []*Obligation
 		for _, o := range r.Obls {
 			if filter == nil || filter(o) {
 				if o.Kind == "table" && !strings.Contains(o.Name, "@") {
 					batch = append(batch, o)
+				} else if !o.ExpectSat && len(o.Cases) == 0 && !strings.Contains(o.Name, "@") && os.Getenv("MLRVC_FAST") != "" {
+					fast = append(fast, o)
 				} else {
 					jobs = append(jobs, job{c: r.Ctx, o: o})
 				}
@@ -425,6 +470,21 @@ func solveAll(results []*FuncResult, budget int, workers int, filter func(o *Obl
 		}
 		if len(batch) > 0 {
 			jobs = append(jobs, job{c: r.Ctx, batch: batch})
+		}
+		// chunks of at most 40 so that one slow function does not serialise the run
+		for len(fast) > 0 {
+			n := len(fast)
+			if n > 40 {
+				n = 40
+			}
+			if n < 3 {
+				for _, o := range fast[:n] {
+					jobs = append(jobs, job{c: r.Ctx, o: o})
+				}
+			} else {
+				jobs = append(jobs, job{c: r.Ctx, fast: fast[:n]})
+			}
+			fast = fast[n:]
 		}
 	}
 	var wg sync.WaitGroup
@@ -436,6 +496,8 @@ func solveAll(results []*FuncResult, budget int, workers int, filter func(o *Obl
 			for j := range ch {
 				if j.batch != nil {
 					solveBatch(j.c, j.batch, budget)
+				} else if j.fast != nil {
+					solveFast(j.c, j.fast, budget)
 				} else {
 					solveObligation(j.c, j.o, budget)
 				}
